@@ -3,6 +3,7 @@ import QV.Drive.C09
 import QV.Drive.Comp
 import QV.Drive.C11
 import QV.Drive.C04
+import QV.Drive.C14
 /-! `qvdriver`: one JSON request per input line, one JSON reply per output line. -/
 open Lean
 
@@ -12,7 +13,8 @@ def dispatch (j : Json) : Except String Json := do
     QV.Drive.C09.handle,
     QV.Drive.Comp.handle,
     QV.Drive.C11.handle,
-    QV.Drive.C04.handle
+    QV.Drive.C04.handle,
+    QV.Drive.C14.handle
   ]
   for h in handlers do
     if let some r := h op j then return ← r
